@@ -95,7 +95,7 @@ def py_shape(fn: ast.FunctionDef, capacity_name: str) -> ProcShape:
                 body = " ; ".join(src_of(s) for s in st.body)
                 sh.events.append(f"children for {src_of(st.target)} in {src_of(st.iter)}: {body}")
                 ver[0] += 1
-            elif isinstance(st, ast.If) and any(isinstance(n, ast.Assign) and src_of(n.targets[0]) == "ctx.i" for n in ast.walk(st)):
+            elif isinstance(st, ast.If) and any((isinstance(n, ast.Assign) and src_of(n.targets[0]) == "ctx.i") or (isinstance(n, ast.AugAssign) and src_of(n.target) == "ctx.i") for n in ast.walk(st)):
                 sh.skip_guard = src_of(st.test)
                 sh.events.append("skip")
                 inner_env = dict(env)
@@ -112,6 +112,17 @@ def py_shape(fn: ast.FunctionDef, capacity_name: str) -> ProcShape:
                         sh.skip_target = lw().expr(s2.value, inner_env)
                         sh.skip_assign_ok = True
                         sh.skip_cond = None
+                    elif isinstance(s2, ast.AugAssign) and src_of(s2.target) == "ctx.i" and isinstance(s2.op, ast.Add):
+                        sh.skip_target = V(f"cur{ver[0]}") + lw().expr(s2.value, inner_env)
+                        sh.skip_assign_ok = True
+                        sh.skip_cond = None
+                # relative form nested in an inner if:  if <cond>: ctx.i += X
+                if sh.skip_target is None:
+                    for s2 in ast.walk(st):
+                        if isinstance(s2, ast.AugAssign) and src_of(s2.target) == "ctx.i" and isinstance(s2.op, ast.Add):
+                            sh.skip_target = V(f"cur{ver[0]}") + lw().expr(s2.value, inner_env)
+                            sh.skip_assign_ok = True
+                            sh.skip_cond = "relative"
             elif isinstance(st, ast.If):
                 sh.events.append("if " + src_of(st.test))
                 walk(st.body)
@@ -246,8 +257,26 @@ def _accepted_array_targets(start: Poly, cur_now: Poly) -> List[Tuple[Poly, str]
     out = []
     for divname in ("floordiv", "div", "truediv"):
         out.append((start + C(16) + ahead * call(divname, consumed, cap), "start + 16 + ahead * ((consumed - 16) / capacity)"))
-    for en in ("element_nbits", "elementNbits", "self.element_nbits", "t.elementNbits", "element_size_bits"):
-        out.append((start + C(16) + ahead * V(en), "start + 16 + ahead * element width"))
+    return out
+
+
+def _all_vars(p: Poly) -> list:
+    out = []
+
+    def rec(q: Poly) -> None:
+        for m in q.terms:
+            for a, _ in m:
+                if a[0] == "var":
+                    out.append(a)
+                for x in a[1:]:
+                    if isinstance(x, Poly):
+                        rec(x)
+                    elif isinstance(x, tuple):
+                        for y in x:
+                            if isinstance(y, Poly):
+                                rec(y)
+
+    rec(p)
     return out
 
 
@@ -276,6 +305,10 @@ def judge(res: RuleResult, sh: ProcShape, kind: str, lang: str, file: str, fname
         res.bad(f)
 
     res.inst(part=part, function=fname, kind=kind, events=sh.events, skip_target=show(sh.skip_target) if sh.skip_target is not None else None, skip_cond=sh.skip_cond)
+    if sh.start_expr is None and sh.skip_target is not None and sh.prefix_guard is not None:
+        sh.start_expr = "<none>"
+        sh.start_before_prefix = True
+        sh.problems.append("no start position is recorded before the prefix: the skip cannot be an absolute jump to start + (sender size)")
     if sh.start_expr is None or sh.prefix_guard is None or sh.children is None or sh.skip_guard is None or sh.skip_target is None:
         res.unsure(f"D3: {lang}:{fname}: start/prefix/children/skip structure not recognised (shape gate): {sh.events}")
         return
@@ -295,7 +328,7 @@ def judge(res: RuleResult, sh: ProcShape, kind: str, lang: str, file: str, fname
         bad("skip-guard", f"the skip runs under `{sh.skip_guard}`, expected `extensible and not encoding`", construct=sh.skip_guard or "", witness="the encoder moves its cursor / a traditional decoder skips")
     # skip condition must let every forward move through
     now = V("cur2")
-    if sh.skip_cond is not None:
+    if sh.skip_cond is not None and sh.skip_cond != "relative":
         c = sh.skip_cond.replace(" ", "")
         if c not in ("ito>=ctx.i", "ito>ctx.i", "ctx.i<=ito", "ctx.i<ito"):
             bad("skip-cond", f"the guard on the jump is `{sh.skip_cond}`; it must let every forward move through (ito >= ctx.i)", construct=sh.skip_cond, witness="an extended sender: the receiver does not skip the extra bits")
@@ -315,6 +348,8 @@ def judge(res: RuleResult, sh: ProcShape, kind: str, lang: str, file: str, fname
                 bad("skip-target", "array skip target multiplies the sender's capacity with the receiver's capacity: an extensible array of sender capacity a occupies 16 + a * element-bits", construct=show(t), witness="sender byte[9]', receiver byte[2]' followed by uint8 f: f decodes from bit 18 instead of bit 88; same schema bool[10]' + uint8: decode jumps to bit 100 of a 5-byte buffer (IndexError)")
             elif all_terms_have_ahead(t - start):
                 bad("skip-target", "array skip target is `start + ahead * X` without the 16 prefix bits: the sender's array occupies 16 + a * element-bits counted from the start position", construct=show(t), witness="sender byte[3]', receiver byte[2]' followed by uint8 f: f decodes 16 bits early")
+            elif all_terms_have_ahead(t - start - C(16)) and not any(a == ("var", "cur2") for a in _all_vars(t - start - C(16))):
+                bad("skip-target", "array skip target is `start + 16 + ahead * X` where X does not come from the bits the own elements just consumed: the receiver's declared element width differs from the sender's when the element type is itself extensible and grew", construct=show(t), witness="S1 -> S2 (array elements, extensible messages, get a field) -> S3 (capacity grows): S1 decoding S3 data lands short")
             elif not all_terms_have_ahead(t - start - C(16)):
                 bad("skip-target", "array skip target is not of the form start + 16 + ahead * (bits per element)", construct=show(t), witness="any extended array sender")
             else:
